@@ -202,7 +202,19 @@ func c19Execute(capPath, events string, trace bool) (viols []c19Viol, err error)
 			ts.och <- opshell.CLine{Plain: true, Line: marker}
 			settle()
 		case 'S':
-			ts.och <- opshell.CLine{Line: marker, Color: opshell.ColorGreen}
+			/* Status and log lines come in several dresses; which one is
+			used depends on the position, so that every dress meets every
+			state. */
+			cl := opshell.CLine{Line: marker, Color: opshell.ColorGreen}
+			switch i % 4 {
+			case 1:
+				cl = opshell.CLine{Line: marker + "\n", Color: opshell.ColorNone, NoTimestamp: true}
+			case 2:
+				cl = opshell.CLine{Line: marker, Color: opshell.ColorRed, NoTimestamp: true}
+			case 3:
+				cl = opshell.CLine{Line: marker, Color: opshell.ColorNone}
+			}
+			ts.och <- cl
 			settle()
 		case 'J':
 			ts.sh.VerifKey(0x0A) /* Ctrl+J: show locally what Ctrl+I would send. */
